@@ -5,7 +5,7 @@ For every claimed check: run the first N cases of the quick plan for each given 
 twice, at two different worker counts (2 and 7 worker processes, i.e. different case ->
 process assignment, different actor reuse, different machine load), each in a fresh
 vcheck.py interpreter, and compare per case (digest, scheduler steps, length of the
-decision trace, sampled history).  Any difference is printed and the tool exits 1.
+decision trace).  Any difference is printed and the tool exits 1.
 
 usage: determinism_sweep.py [-n CASES] [--props C10,C12] SEED [SEED ...]
 Appends one line per (property, seed) to /verif/seeded/determinism.jsonl.
@@ -44,7 +44,9 @@ for seed in a.seeds:
             codes.append(r.returncode)
             dumps.append([json.loads(x) for x in open(path)])
             os.unlink(path)
-        diff = [(x[0], x[1], y[1]) for x, y in zip(dumps[0], dumps[1]) if x != y]
+        # compared: case id, digest of the event log, scheduler steps, length of the decision
+        # trace (the sampled description may legitimately contain the scratch directory name)
+        diff = [(x[0], x[1], y[1]) for x, y in zip(dumps[0], dumps[1]) if x[:4] != y[:4]]
         rec = {"property": p, "seed": seed, "cases": len(dumps[0]), "jobs": [2, 7], "mismatches": len(diff), "exit": codes, "wall": round(time.time() - t)}
         print(json.dumps(rec), flush=True)
         for d in diff[:5]:
